@@ -66,6 +66,10 @@ CLAIMED['C13'] = ('Coq theorems over Model/Commands.v (forget / ignore / reset-d
          'proof: for every task table, DB and argument form forget removes exactly the documented set (named + sub-tasks; (task_dep u setup)-closure with -s; everything with --all; defaults / all non-sub-tasks when none named) and leaves every other record unchanged; a forgotten task is not up-to-date next (constant-true-uptodate caveat witnessed); ignore marks exactly T and its sub-tasks, the mark persists over any runs until a forget covering the task, and no serial run ever starts a marked task; reset-dep records the state of the present files keeping values/result, or nothing when a file dep is missing.  PARTIAL: that no DEPENDENT of an ignored task is started is proved only locally (C13_ignore_dependents_partial) and checked by the oracle on every real run',
          'trusted: Coq kernel; hand model tied by 193 (quick) / 1672 (thorough) command applications through DoitMain on json/dbm/sqlite3 with DB dumps and a following recorded run; md5/callables oracles',
          'DESIGN.md 5-C13')
+CLAIMED['C10'] = ('Coq theorems over Model/Inputs.v on top of Status.v/History.v (changed, getargs values = latest saved values by an invariant over all histories, dependencies/targets) and of the dispatcher invariants (getargs source finished first, calc results merged before hand-over) + correspondence through DoitMain with instrumented actions',
+         'proof: whenever a task must run (other than through the uptodate-false early exit) `changed` contains every file dependency without saved state or modified w.r.t. the last successful execution by the checker rule; getargs values (single and group sources, key or whole dict) are exactly those of the source task\'s most recent successful execution after ANY history, errors included, and the source has finished before the consumer starts (from C01); dependencies/targets are the current ones; calc_dep results are merged into the dependent before it is handed to the runner.  PARTIAL: the trace-level ordering theorem for tasks returned by calc_dep results (C10_calc_dep_effective_partial).  KNOWN finding: changed == [] when an uptodate item is false (pinned by existing tests)',
+         'trusted: Coq kernel; hand model tied by 752 (quick) / ~3700 (thorough) compared cases from real sessions (serial, -n 2, -n 2 -P thread; json/dbm/sqlite3); inspect-based kwargs binding, %-formatting, md5, set iteration order are oracles; task params/pos_arg and result_dep on group sources not modelled',
+         'DESIGN.md 5-C10')
 NOT_YET = {}
 
 def main():
